@@ -164,7 +164,7 @@ func TestVerif_C10(t *testing.T) {
 	nProd := len(prod)
 	{
 		rng := rand.New(rand.NewPCG(r.Seed, 10))
-		for i := 0; i < pick(r, 200, 4000); i++ {
+		for i := 0; i < pick(r, 80, 4000); i++ {
 			prod = append(prod, randRichValidCfg(rng))
 		}
 	}
@@ -173,7 +173,7 @@ func TestVerif_C10(t *testing.T) {
 	presets := [][]string{nil, {"Accept-Encoding"}, {"Accept-Encoding", "Cookie, X-Pre"}, {"Origin"}, {"Access-Control-Request-Headers"}, {""},
 		{"Accept-Encoding, Origin"}, {"origin", "Access-Control-Request-Method"}, {"Access-Control-Request-Private-Network, Origin"}}
 	r.Parallel(len(prod), func(l *Local) {
-		if l.Batch < nProd && (l.Batch+int(r.Seed))%cfgStride != 0 {
+		if l.Batch < nProd && !r.visit(l.Batch, cfgStride) {
 			return
 		}
 		c := prod[l.Batch]
